@@ -64,6 +64,12 @@ def _ptr(a, idx=0):
 def _base(x):
     return x
 
+def _sint(x):
+    import numpy as _np
+    if isinstance(x, (_np.integer, _np.bool_)):
+        return int(x)
+    return x
+
 def prange(*a, **kw):
     return range(*a)
 
@@ -239,6 +245,7 @@ class Translator:
         self.warnings = []
 
     # -------------------------------------------------------------- expression rewrites
+    SINT_CAST_RE = re.compile(r'<\s*(?:int|long|ssize_t|Py_ssize_t|short|long\s+long)\s*>\s*([A-Za-z_][\w\.]*(?:\[[^\[\]]*\])*)')
     CAST_RE = re.compile(r'<\s*(?:unsigned\s+|const\s+)*[A-Za-z_][\w\.]*(?:\s+[A-Za-z_]\w*)?\s*\**\s*(?:\[[^\]<>]*\])?\s*>(?=\s*[\w\(&\-])')
 
     def _rewrite_expr(self, s, boxed=()):
@@ -279,6 +286,9 @@ class Translator:
             if pre and (pre[-1].isalnum() or pre[-1] in '_)]') and not re.search(r'(return|in|and|or|not|if|else)$', pre):
                 return m.group(0)   # a comparison, not a cast
             return ''
+        # casts to SIGNED integer types of a simple operand (name with attribute/subscript suffixes): keep the conversion, so that
+        # values read from unsigned numpy buffers do not wrap around in later subtractions (C: <int>j - <int>i is signed arithmetic)
+        s = self.SINT_CAST_RE.sub(lambda m: '_sint(%s)' % m.group(1), s)
         s_local = s
         s = self.CAST_RE.sub(cast_sub, s)
         # address-of
